@@ -239,6 +239,8 @@ struct DriverArgs {
   bool hashesOnly = false;     // print "H <index> <hash> <note>" per run (determinism campaign)
   int64_t single = -1;         // run just this index and print its plan and outcome
   std::string self;
+  int gateLeft = 2;            // violations this worker instance may still confirm, shrink and write out
+  std::chrono::steady_clock::time_point batchStart{};   // the wall cap counts from the start of the batch, also for a restarted worker
 };
 
 inline uint64_t runSeedFor(const DriverArgs &a, const Harness &h, uint64_t index) {
@@ -357,7 +359,7 @@ inline void workerLoop(Harness &h, const DriverArgs &a, int w, int W, uint64_t s
   std::map<std::string, uint64_t> counters;
   std::set<std::string> keys;
   int gated = 0, samples = 0;
-  auto t0 = std::chrono::steady_clock::now();
+  auto t0 = a.batchStart == std::chrono::steady_clock::time_point{} ? std::chrono::steady_clock::now() : a.batchStart;
   for (uint64_t i = startIndex; i < a.runs; i++) {
     if ((int)(i % (uint64_t)W) != w) continue;
     if (a.wallCap > 0 && std::chrono::duration<double>(std::chrono::steady_clock::now() - t0).count() > a.wallCap) {
@@ -390,7 +392,7 @@ inline void workerLoop(Harness &h, const DriverArgs &a, int w, int W, uint64_t s
       v["class"] = o.vclass; v["detail"] = o.detail; v["sig"] = o.signature;
       if (kf.match(h.property, o.signature)) {
         v["known"] = true;
-      } else if (gated < 2) {
+      } else if (gated < a.gateLeft) {
         gated++;
         // (1) same plan again (in a forked child when the code under test can crash)
         bool iso = h.crashProne();
@@ -457,6 +459,7 @@ inline void workerLoop(Harness &h, const DriverArgs &a, int w, int W, uint64_t s
 }
 
 inline int driverMain(int argc, char **argv, Harness &h) {
+  disableAslrOnce(argv);
   // Large blocks (a Verilated model is 2 MB) always come from mmap and go back on free.  With
   // glibc's dynamic threshold they migrate into the brk heap after the first free, where small
   // long-lived blocks (caches) between them fragment it: a worker grew by about 150 kB per run.
@@ -519,9 +522,12 @@ inline int driverMain(int argc, char **argv, Harness &h) {
   }
 
   auto t0 = std::chrono::steady_clock::now();
+  a.batchStart = t0;
   struct W { pid_t pid = -1; int fd = -1; std::string buf; int64_t started = -1; uint64_t next = 0; bool done = false; int respawns = 0; };
   std::vector<W> ws((size_t)a.workers);
+  size_t gatedTotal = 0;      // replay files written so far, over all workers and restarts
   auto spawn = [&](int w, uint64_t startIndex) {
+    a.gateLeft = gatedTotal >= (size_t)(2 * a.workers) ? 0 : 2;
     int p[2];
     if (pipe(p) != 0) { perror("pipe"); exit(2); }
     std::fflush(stdout);
@@ -577,6 +583,7 @@ inline int driverMain(int argc, char **argv, Harness &h) {
       if (v->getBool("nondet")) { nondet++; machineryErrors.push_back("run " + std::to_string(r.getU64("i")) + ": same plan gave a different result when executed twice: " + v->dump()); }
       Json rec = *v;
       rec["i"] = r.at("i");
+      if (rec.has("replay") || rec.getBool("nondet")) gatedTotal++;
       violationRecs.push_back(rec);
     }
   };
